@@ -37,9 +37,11 @@ theorem init_and_read_disable_limits :
     ∀ e ∈ Gen.CApi.entries, (e.name = "_init" ∨ e.name = "_read") → e.resetsLimits = true := by
   decide
 
-/-- the reader frees the partially built table on every failure path (one `delete` per failing `fread` / insertion) -/
+/-- the reader frees the partially built table on every failure path: once the table object exists, no `return NULL` leaves
+the function without a `delete` (however the failing `fread`s / the failing insertion are grouped into branches), it reads
+the count and, per record, the key and the value, and it does free -/
 theorem read_frees_on_failure :
-    ∀ e ∈ Gen.CApi.entries, e.name = "_read" → e.deletes = 3 ∧ e.freads = 3 ∧ e.nullReturns = 5 := by
+    ∀ e ∈ Gen.CApi.entries, e.name = "_read" → e.unfreedFailures = 0 ∧ 3 ≤ e.freads ∧ 1 ≤ e.deletes ∧ 2 ≤ e.nullReturns := by
   decide
 
 variable {κ ν : Type} [DecidableEq κ]
